@@ -216,6 +216,9 @@ func (s *Server) readListener(l net.Listener, am *allocation.Manager) {
 				defer cancel()
 				if err := tlsConn.HandshakeContext(ctx); err != nil {
 					s.log.Errorf("TLS handshake failed: %s", err)
+					// Nobody else will: the connection leaves s.conns when this
+					// goroutine returns.
+					_ = conn.Close()
 
 					return
 				}
